@@ -1,11 +1,31 @@
 """Which units decide which property.  Proof units come from the `serves`
 lists of the contracts; this file adds enumerations, bounded-only units,
-the claimed level and the per-property assumptions."""
+witness scenarios, the claimed level and the per-property assumptions."""
+
+TRUSTED = ("pyvc VC generator (home-made; cross-checked, no trusted kernel), SMT solvers cvc5 1.0.3 / z3 4.8.12 / z3 5.1.0, "
+           "CPython semantics of the modelled str/list/dict operations, the trusted protocol contracts proto:* (G3) "
+           "and the regex / library axioms listed in the evidence")
 
 PROPS = {
-    "C02": dict(level="other", enum=[], bounded=[],
-                claim="the tokenisers every rule goes through (_next_quote, splitquote) are proved lossless and quote-exact for all inputs; other links of the chain are listed in the evidence as bounded or not decided",
-                trusted="pyvc VC generator, SMT solvers, CPython semantics of modelled str/list operations; per-rule match methods are not under contract",
-                explanation="tokenisers proved lossless for all inputs; remaining links bounded (see DESIGN 6/C02)",
-                assumptions=[]),
+    "C02": dict(level="other",
+                claim="the tokenisers every rule goes through (_next_quote, splitquote) are proved lossless and quote-exact for all "
+                      "inputs; Program.match is proved to account for every item on its normal exit (fallback exit: known finding); "
+                      "per-rule match methods are not under contract",
+                trusted=TRUSTED,
+                explanation="[P] tokenisers, label/name extraction, Program.match item accounting; [B] cross-checks on CPython; see DESIGN 6/C02",
+                witnesses=["c02_units_dropped_around_anonymous_main"]),
+    "C06": dict(level="other",
+                claim="exception-type contracts: Program.__new__ lets only FortranSyntaxError out (given the stated contract of the parse "
+                      "below it), FortranSyntaxError construction cannot raise IndexError under the line bookkeeping invariant, reader "
+                      "diagnostics must not end the process (known finding: reader.error exits)",
+                trusted=TRUSTED + "; [A] the parse below Program raises only fparser exceptions",
+                explanation="[P] F1, U1, R17; whole-parser escape freedom only for functions under contract",
+                witnesses=["c06_end_name_mismatch_exits", "c06_dangling_construct_name_exits"]),
+    "C09": dict(level="other",
+                claim="on every normal and exceptional exit of the only two functions that open scopes (BlockBase.match, "
+                      "Main_Program0.match) the scope stack is as at entry and no symbol table of the failed parse remains; symbol-table "
+                      "operations proved against the ghost stack; one clause (pre-existing same-named table is lost) is a known finding",
+                trusted=TRUSTED,
+                explanation="[P] T1-T6, U8a, F3 over ghost scope stack tied to _current_scope/_parent by REP; rule-call protocol G3 assumed for callees",
+                witnesses=["c09_internal_syntax_error_leaves_scope", "c09_main_program0_leaves_scope", "c09_failing_parse_removes_existing_table"]),
 }
